@@ -61,6 +61,8 @@ struct fault {
 static struct fault faults[MAX_FAULTS];
 static int nfaults = 0;
 static int perm_readdir = 0;
+static long stdout_fail_after = 0; /* the n-th and every later write to fd 1/2 fails with EPIPE (0 = never) */
+static long stdout_writes = 0;
 static uint64_t rng_state = 0x9E3779B97F4A7C15ULL;
 
 static char sim_root[PATH_MAX];
@@ -224,6 +226,8 @@ static void load_plan(const char *path)
                 rng_state = 0x9E3779B97F4A7C15ULL;
         } else if (!strncmp(line, "perm ", 5)) {
             perm_readdir = atoi(line + 5);
+        } else if (!strncmp(line, "stdout_fail ", 12)) {
+            stdout_fail_after = atol(line + 12);
         } else if (!strncmp(line, "fault ", 6) && nfaults < MAX_FAULTS) {
             struct fault *f = &faults[nfaults];
             memset(f, 0, sizeof *f);
@@ -775,8 +779,18 @@ ssize_t write(int fd, const void *buf, size_t n)
 {
     do_init();
     const char *rel = fd_rel(fd);
-    if (!rel)
+    if (!rel) {
+        if (active && stdout_fail_after > 0 && (fd == 1 || fd == 2)) {
+            long c = __sync_add_and_fetch(&stdout_writes, 1);
+            if (c >= stdout_fail_after) {
+                if (c == stdout_fail_after)
+                    tracef("-\tSTDOUT_FAIL\tfd%d\t0\t%ld\t0\t32\tepipe\n", fd, c);
+                errno = EPIPE;
+                return -1;
+            }
+        }
         return real_write(fd, buf, n);
+    }
     return write_common(fd, buf, n, rel);
 }
 
